@@ -200,6 +200,11 @@ void Ctx::violate(const std::string &property, const std::string &cls, const std
     }
 }
 
+void Ctx::observe(const std::string &key, const std::string &digest)
+{
+    send("O\t" + key + "\t" + digest);
+}
+
 void Ctx::finish()
 {
     std::string c = "C";
@@ -261,6 +266,7 @@ struct RunResult
     std::string err; // captured stderr (tail)
     double wall = 0;
     std::vector<std::string> knownHits; // known findings the run continued past
+    std::map<std::string, std::string> observations;
 };
 
 bool gTrace = false;
@@ -338,9 +344,10 @@ std::string classifyStderr(const std::string &err, int status, bool timedOut, st
 }
 
 std::string crashLocation(const std::string &err, bool mostFrequent);
+RunResult runPlan(const Engine &eng, const Plan &plan);
 
 // Execute one plan in a forked child and collect what it reports.
-RunResult runPlan(const Engine &eng, const Plan &plan)
+RunResult runSingle(const Engine &eng, const Plan &plan, const std::map<std::string, std::string> *expected)
 {
     RunResult r;
     int po[2], pe[2];
@@ -373,6 +380,7 @@ RunResult runPlan(const Engine &eng, const Plan &plan)
         ctx.fd = po[1];
         ctx.trace = gTrace;
         ctx.knownSigs = &gKnown;
+        ctx.expected = expected;
         eng.execute(plan, ctx);
         ctx.finish();
         _exit(0);
@@ -438,6 +446,8 @@ RunResult runPlan(const Engine &eng, const Plan &plan)
             r.v.sig = f[3];
             r.v.step = atoi(f[4].c_str());
             r.v.detail = f[5];
+        } else if (f[0] == "O" && f.size() >= 3) {
+            r.observations[f[1]] = f[2];
         } else if (f[0] == "K" && f.size() >= 3) {
             r.knownHits.push_back(f[1] + "\t" + f[2]);
         } else if (f[0] == "C") {
@@ -511,6 +521,30 @@ std::string crashLocation(const std::string &err, bool mostFrequent)
         }
     }
     return best;
+}
+
+// One run = the auxiliary runs the engine asks for (each in a fresh child), then the main run, which is
+// given what they observed.  A violation inside an auxiliary run is the run's violation.
+RunResult runPlan(const Engine &eng, const Plan &plan)
+{
+    if (!eng.auxiliary) {
+        return runSingle(eng, plan, nullptr);
+    }
+    std::map<std::string, std::string> expected;
+    double wall = 0;
+    for (auto &aux : eng.auxiliary(plan)) {
+        RunResult a = runSingle(eng, aux, nullptr);
+        wall += a.wall;
+        if (a.hasViolation) {
+            a.v.sig += ",in-auxiliary-run";
+            a.wall = wall;
+            return a;
+        }
+        expected.insert(a.observations.begin(), a.observations.end());
+    }
+    RunResult r = runSingle(eng, plan, &expected);
+    r.wall += wall;
+    return r;
 }
 
 bool sameViolation(const RunResult &a, const RunResult &b)
@@ -594,7 +628,7 @@ Plan shrinkPlan(const Engine &eng, const Plan &orig, const RunResult &ref, int b
             }
         }
         for (size_t i = 0; i < best.steps.size() && !progress && used < budget; ++i) {
-            for (size_t j = 0; j < best.steps[i].a.size() && used < budget; ++j) {
+            for (size_t j = eng.firstShrinkableArg; j < best.steps[i].a.size() && used < budget; ++j) {
                 if (best.steps[i].a[j] != 0) {
                     Plan p = best;
                     p.steps[i].a[j] = 0;
